@@ -362,6 +362,7 @@ template<class V> typename std::enable_if<has_aligned<V>::value>::type do_aligne
 template<class V> typename std::enable_if<!has_aligned<V>::value>::type do_aligned_store(const V& v, typename V::scalar_value_type* p) { v.store(p, true); }
 
 inline sigjmp_buf& guard_env() { static sigjmp_buf e; return e; }
+inline std::string& g_where() { static std::string w; return w; }   // the access being executed (reported when it faults)
 inline void guard_handler(int) { siglongjmp(guard_env(), 1); }
 
 // ---- load / store / masks with canaries --------------------------------------------------------------------------
@@ -388,11 +389,11 @@ template<class V> void check_memory(Rep& R, unsigned seed, size_t nrand) {
         for (size_t k = 0; k < 12; ++k) { fill_src(k);
             for (size_t off = 0; off < (al ? 2 : 5); ++off) {
                 size_t o = al ? offs_al[off] : off; if (al && off == 1 && o == 0) continue;
-                const T* p = src.at(o); T got[N];
+                const T* p = src.at(o); T got[N]; g_where() = "load at element offset " + std::to_string(o) + " of a 64-byte aligned buffer";
                 if (form == 0) { V v; v.load(p, true); un(v, got); } else if (form == 1) { V v; v.load(p, false); un(v, got); }
                 else if (form == 2) { V v; do_aligned_load(v, p); un(v, got); } else if (form == 3) { V v(p, true); un(v, got); } else { V v(p, false); un(v, got); }
                 for (size_t i = 0; i < N; ++i) { ++R.n; if (!same(got[i], p[i])) { R.fail("offset=" + std::to_string(o) + " lane=" + std::to_string(i) + " mem=" + hexv(p, N) + " got=" + hexv(got, N)); break; } } } }
-        } else R.fail("fault (SIGSEGV) inside this operation (e.g. an aligned-access instruction on an unaligned address, or an access outside the vector)");
+        } else R.fail("fault (SIGSEGV) at " + g_where() + " (e.g. an aligned-access instruction on an unaligned address, or an access outside the vector)");
         R.end();
     }
     for (int form = 0; form < 3; ++form) {
@@ -403,12 +404,12 @@ template<class V> void check_memory(Rep& R, unsigned seed, size_t nrand) {
         for (size_t k = 0; k < 12; ++k) { fill_src(k); V v = mk<V>(src.at(0));
             for (size_t off = 0; off < (al ? 2 : 5); ++off) {
                 size_t o = al ? offs_al[off] : off; if (al && off == 1 && o == 0) continue;
-                fill_dst(); T* p = dst.at(o);
+                fill_dst(); T* p = dst.at(o); g_where() = "store at element offset " + std::to_string(o) + " of a 64-byte aligned buffer";
                 if (form == 0) v.store(p, true); else if (form == 1) v.store(p, false); else do_aligned_store(v, p);
                 std::string why;
                 for (size_t i = 0; i < N; ++i) { ++R.n; if (!same(p[i], src.at(0)[i])) { R.fail("offset=" + std::to_string(o) + " lane=" + std::to_string(i) + " want=" + hexv(src.at(0), N) + " mem=" + hexv(p, N)); break; } }
                 if (!canaries_ok(o, why)) R.fail(why); } }
-        } else R.fail("fault (SIGSEGV) inside this operation (e.g. an aligned-access instruction on an unaligned address, or an access outside the vector)");
+        } else R.fail("fault (SIGSEGV) at " + g_where() + " (e.g. an aligned-access instruction on an unaligned address, or an access outside the vector)");
         R.end();
     }
     // masks: bit j of the mask enables lane j.  All masks when N <= 8, otherwise walking / boundary / seeded masks.
@@ -422,22 +423,22 @@ template<class V> void check_memory(Rep& R, unsigned seed, size_t nrand) {
         size_t k = 0;
         if (sigsetjmp(guard_env(), 1) == 0) {
         for (uint32_t m : masks) { fill_src(k++); V v = mk<V>(src.at(0)); fill_dst();
-            size_t o = al ? 0 : (k % 3); T* p = dst.at(o);
+            size_t o = al ? 0 : (k % 3); T* p = dst.at(o); g_where() = "mask_store mask=0x" + hex((int32_t)m) + " at element offset " + std::to_string(o) + " of a 64-byte aligned buffer";
             v.mask_store(p, m, al != 0);
             std::string why;
             for (size_t i = 0; i < N; ++i) { ++R.n; T w = ((m >> i) & 1) ? src.at(0)[i] : canary<T>(Buf<T>::PAD + o + i);
                 if (!same(p[i], w)) { R.fail("mask=0x" + hex((int32_t)m) + " lane=" + std::to_string(i) + (((m >> i) & 1) ? " (enabled)" : " (disabled lane written)") + " vec=" + hexv(src.at(0), N) + " mem=" + hexv(p, N) + " before=" + hex(canary<T>(Buf<T>::PAD + o + i))); break; } }
             if (!canaries_ok(o, why)) R.fail("mask=0x" + hex((int32_t)m) + " " + why); }
-        } else R.fail("fault (SIGSEGV) inside this operation (e.g. an aligned-access instruction on an unaligned address, or an access outside the vector)");
+        } else R.fail("fault (SIGSEGV) at " + g_where() + " (e.g. an aligned-access instruction on an unaligned address, or an access outside the vector)");
         R.end();
         R.begin(al ? "mask_load_aligned" : "mask_load_unaligned");
         if (sigsetjmp(guard_env(), 1) == 0) {
         k = 0;
-        for (uint32_t m : masks) { fill_src(k++); size_t o = al ? 0 : (k % 3); const T* p = src.at(o);
+        for (uint32_t m : masks) { fill_src(k++); size_t o = al ? 0 : (k % 3); const T* p = src.at(o); g_where() = "mask_load mask=0x" + hex((int32_t)m) + " at element offset " + std::to_string(o) + " of a 64-byte aligned buffer";
             V v; v.mask_load(p, m, al != 0); T got[N]; un(v, got);
             for (size_t i = 0; i < N; ++i) { if (!((m >> i) & 1)) continue; ++R.n;
                 if (!same(got[i], p[i])) { R.fail("mask=0x" + hex((int32_t)m) + " lane=" + std::to_string(i) + " mem=" + hexv(p, N) + " got=" + hexv(got, N)); break; } } }
-        } else R.fail("fault (SIGSEGV) inside this operation (e.g. an aligned-access instruction on an unaligned address, or an access outside the vector)");
+        } else R.fail("fault (SIGSEGV) at " + g_where() + " (e.g. an aligned-access instruction on an unaligned address, or an access outside the vector)");
         R.end();
     }
     // (a fault is caught and reported as a failure of this operation)
